@@ -15,12 +15,12 @@
 //! In-memory sqlite is NOT usable here: `CardanoTransactionRepository::optimize` renews the pool's
 //! connections (`build_without_migrations`), which for ":memory:" yields a new empty database.
 use std::path::{Path, PathBuf};
-use std::sync::atomic::{AtomicU64, Ordering};
+use std::sync::atomic::{AtomicBool, AtomicI64, AtomicU64, Ordering};
 use std::sync::{Arc, Mutex};
 
 use async_trait::async_trait;
 use mithril_cardano_node_chain::chain_importer::{
-    CardanoChainDataImporter, ChainDataImporter, ChainDataImporterByChunk, ChainDataImporterWithPruner, ChainDataPruner,
+    CardanoChainDataImporter, ChainDataImporter, ChainDataImporterByChunk, ChainDataImporterWithPruner, ChainDataPruner, ChainDataStore,
 };
 use mithril_cardano_node_chain::chain_reader::ChainBlockReader;
 use mithril_cardano_node_chain::chain_scanner::CardanoBlockScanner;
@@ -92,6 +92,60 @@ impl ChainDataPruner for RecordingPruner {
     }
 }
 
+/// marker carried by the error of an injected store failure
+pub const INJECTED_STORE_FAULT: &str = "verif: injected store failure";
+
+/// Fault injection at the store boundary: delegates every call to the real repository, except
+/// that the `countdown`-th call of `store_blocks_and_transactions` after arming fails BEFORE
+/// anything is written (what an aborted sqlite transaction - disk full, SQLITE_BUSY - looks like to
+/// the importer). Disarmed (negative countdown) it is a pure pass-through.
+pub struct FaultyStore {
+    inner: Arc<SignerCardanoChainDataRepository>,
+    pub countdown: Arc<AtomicI64>,
+    pub fired: Arc<AtomicBool>,
+}
+
+#[async_trait]
+impl ChainDataStore for FaultyStore {
+    async fn get_highest_beacon(&self) -> StdResult<Option<mithril_common::entities::ChainPoint>> {
+        ChainDataStore::get_highest_beacon(self.inner.as_ref()).await
+    }
+    async fn get_highest_block_range(&self) -> StdResult<Option<mithril_common::entities::BlockRange>> {
+        ChainDataStore::get_highest_block_range(self.inner.as_ref()).await
+    }
+    async fn get_highest_legacy_block_range(&self) -> StdResult<Option<mithril_common::entities::BlockRange>> {
+        ChainDataStore::get_highest_legacy_block_range(self.inner.as_ref()).await
+    }
+    async fn store_blocks_and_transactions(&self, b: Vec<mithril_common::entities::CardanoBlockWithTransactions>) -> StdResult<()> {
+        if self.countdown.load(Ordering::SeqCst) >= 0 && self.countdown.fetch_sub(1, Ordering::SeqCst) == 0 {
+            self.fired.store(true, Ordering::SeqCst);
+            return Err(anyhow::anyhow!(INJECTED_STORE_FAULT));
+        }
+        ChainDataStore::store_blocks_and_transactions(self.inner.as_ref(), b).await
+    }
+    async fn get_blocks_and_transactions_in_range(
+        &self,
+        range: std::ops::Range<BlockNumber>,
+    ) -> StdResult<std::collections::BTreeSet<mithril_common::entities::CardanoBlockTransactionMkTreeNode>> {
+        ChainDataStore::get_blocks_and_transactions_in_range(self.inner.as_ref(), range).await
+    }
+    async fn get_transactions_in_range(&self, range: std::ops::Range<BlockNumber>) -> StdResult<Vec<mithril_common::entities::CardanoTransaction>> {
+        ChainDataStore::get_transactions_in_range(self.inner.as_ref(), range).await
+    }
+    async fn store_block_range_roots(&self, r: Vec<(mithril_common::entities::BlockRange, mithril_common::crypto_helper::MKTreeNode)>) -> StdResult<()> {
+        ChainDataStore::store_block_range_roots(self.inner.as_ref(), r).await
+    }
+    async fn store_legacy_block_range_roots(&self, r: Vec<(mithril_common::entities::BlockRange, mithril_common::crypto_helper::MKTreeNode)>) -> StdResult<()> {
+        ChainDataStore::store_legacy_block_range_roots(self.inner.as_ref(), r).await
+    }
+    async fn remove_rolled_chain_data_and_block_range(&self, slot: mithril_common::entities::SlotNumber) -> StdResult<()> {
+        ChainDataStore::remove_rolled_chain_data_and_block_range(self.inner.as_ref(), slot).await
+    }
+    async fn optimize(&self) -> StdResult<()> {
+        ChainDataStore::optimize(self.inner.as_ref()).await
+    }
+}
+
 /// importer that does nothing: lets the signable builders be asked for the root of a beacon
 /// without touching the store
 struct NoImport;
@@ -152,6 +206,10 @@ pub struct Sut {
     pub log: Arc<Mutex<ReaderLog>>,
     pub script: Arc<Mutex<Option<MidImportReorg>>>,
     pub pruner: Arc<RecordingPruner>,
+    /// injected store failure: number of `store_blocks_and_transactions` calls to let through
+    /// before one fails (negative = disarmed) / whether it fired
+    pub store_fault: Arc<AtomicI64>,
+    pub store_fault_fired: Arc<AtomicBool>,
     last_import_error: Arc<Mutex<Option<String>>>,
     legacy_real: Arc<dyn SignableBuilder<BlockNumber>>,
     v2_real: Arc<dyn SignableBuilder<(BlockNumber, BlockNumberOffset)>>,
@@ -185,7 +243,10 @@ impl Sut {
         let reader = Arc::new(tokio::sync::Mutex::new(ModelChainReader::new(node, log.clone(), script.clone())));
         let dyn_reader: Arc<tokio::sync::Mutex<dyn ChainBlockReader>> = reader.clone();
         let scanner = Arc::new(CardanoBlockScanner::new(dyn_reader, cfg.max_roll_forwards_per_poll, logger()));
-        let base: Arc<dyn ChainDataImporter> = Arc::new(CardanoChainDataImporter::new(scanner, repo.clone(), logger()));
+        let store_fault = Arc::new(AtomicI64::new(-1));
+        let store_fault_fired = Arc::new(AtomicBool::new(false));
+        let store = Arc::new(FaultyStore { inner: repo.clone(), countdown: store_fault.clone(), fired: store_fault_fired.clone() });
+        let base: Arc<dyn ChainDataImporter> = Arc::new(CardanoChainDataImporter::new(scanner, store, logger()));
         let pruner = Arc::new(RecordingPruner { inner: repo.clone(), floor, calls: Arc::new(AtomicU64::new(0)) });
         let mut importer = base;
         if cfg.flavour == Flavour::Signer {
@@ -213,7 +274,7 @@ impl Sut {
             Arc::new(CardanoTransactionsSignableBuilder::<MKTreeStoreInMemory>::new(Arc::new(NoImport), repo.clone()));
         let v2_query: Arc<dyn SignableBuilder<(BlockNumber, BlockNumberOffset)>> =
             Arc::new(CardanoBlocksTransactionsSignableBuilder::<MKTreeStoreInMemory>::new(Arc::new(NoImport), repo.clone()));
-        Ok(Sut { path: path.to_path_buf(), cfg: cfg.clone(), repo, importer, reader, log, script, pruner, last_import_error, legacy_real, v2_real, legacy_query, v2_query })
+        Ok(Sut { path: path.to_path_buf(), cfg: cfg.clone(), repo, importer, reader, log, script, pruner, store_fault, store_fault_fired, last_import_error, legacy_real, v2_real, legacy_query, v2_query })
     }
 
     /// import + root through the real legacy signable builder (what a signer does at a beacon)
